@@ -18,21 +18,25 @@ import (
 	"encoding/binary"
 )
 
-func (s *Segment) getDocStoredMetaAndUnCompressed(docNum uint64) (meta, data []byte, err error) {
-	_, storedOffset, n, metaLen, dataLen, err := s.getDocStoredOffsets(docNum)
+// getDocStoredMetaAndUnCompressed decompresses the block of docNum into buf
+// (a buffer owned by the caller, so that concurrent and re-entrant readers do
+// not share it) and returns the document's meta and data sections together
+// with the buffer for reuse.
+func (s *Segment) getDocStoredMetaAndUnCompressed(buf []byte, docNum uint64) (meta, data, uncompressed []byte, err error) {
+	uncompressed, storedOffset, n, metaLen, dataLen, err := s.getDocStoredOffsets(buf, docNum)
 	if err != nil {
-		return nil, nil, err
+		return nil, nil, buf, err
 	}
 
-	meta = s.storedFieldChunkUncompressed[int(storedOffset+n):int(storedOffset+n+metaLen)]
-	data = s.storedFieldChunkUncompressed[int(storedOffset+n+metaLen):int(storedOffset+n+metaLen+dataLen)]
-	return meta, data, nil
+	meta = uncompressed[int(storedOffset+n):int(storedOffset+n+metaLen)]
+	data = uncompressed[int(storedOffset+n+metaLen):int(storedOffset+n+metaLen+dataLen)]
+	return meta, data, uncompressed, nil
 }
 
-func (s *Segment) getDocStoredOffsets(docNum uint64) (indexOffset, storedOffset, n, metaLen, dataLen uint64, err error) {
-	indexOffset, storedOffset, err = s.getDocStoredOffsetsOnly(docNum)
+func (s *Segment) getDocStoredOffsets(buf []byte, docNum uint64) (uncompressed []byte, storedOffset, n, metaLen, dataLen uint64, err error) {
+	_, storedOffset, err = s.getDocStoredOffsetsOnly(docNum)
 	if err != nil {
-		return 0, 0, 0, 0, 0, err
+		return buf, 0, 0, 0, 0, err
 	}
 
 	// document chunk coder
@@ -41,21 +45,20 @@ func (s *Segment) getDocStoredOffsets(docNum uint64) (indexOffset, storedOffset,
 	chunkOffsetEnd := s.storedFieldChunkOffsets[int(chunkI)+1]
 	compressed, err := s.data.Read(int(chunkOffsetStart), int(chunkOffsetEnd))
 	if err != nil {
-		return 0, 0, 0, 0, 0, err
+		return buf, 0, 0, 0, 0, err
 	}
-	s.storedFieldChunkUncompressed = s.storedFieldChunkUncompressed[:0]
-	s.storedFieldChunkUncompressed, err = ZSTDDecompress(s.storedFieldChunkUncompressed[:cap(s.storedFieldChunkUncompressed)], compressed)
+	uncompressed, err = ZSTDDecompress(buf[:cap(buf)], compressed)
 	if err != nil {
-		return 0, 0, 0, 0, 0, err
+		return buf, 0, 0, 0, 0, err
 	}
 
 	// the two varints may sit at the very end of the block: never look past it
-	blockLen := uint64(len(s.storedFieldChunkUncompressed))
+	blockLen := uint64(len(uncompressed))
 	metaLenEnd := storedOffset + binary.MaxVarintLen64
 	if metaLenEnd > blockLen {
 		metaLenEnd = blockLen
 	}
-	metaLenData := s.storedFieldChunkUncompressed[int(storedOffset):int(metaLenEnd)]
+	metaLenData := uncompressed[int(storedOffset):int(metaLenEnd)]
 	var read int
 	metaLen, read = binary.Uvarint(metaLenData)
 	n += uint64(read)
@@ -64,11 +67,11 @@ func (s *Segment) getDocStoredOffsets(docNum uint64) (indexOffset, storedOffset,
 	if dataLenEnd > blockLen {
 		dataLenEnd = blockLen
 	}
-	dataLenData := s.storedFieldChunkUncompressed[int(storedOffset+n):int(dataLenEnd)]
+	dataLenData := uncompressed[int(storedOffset+n):int(dataLenEnd)]
 	dataLen, read = binary.Uvarint(dataLenData)
 	n += uint64(read)
 
-	return indexOffset, storedOffset, n, metaLen, dataLen, nil
+	return uncompressed, storedOffset, n, metaLen, dataLen, nil
 }
 
 func (s *Segment) getDocStoredOffsetsOnly(docNum uint64) (indexOffset, storedOffset uint64, err error) {
